@@ -298,6 +298,7 @@ func (x *Exec) freshErr(prefix string) ErrVal {
 	il := o.Fresh(prefix+".inputLen", o.IdxSort())
 	ev.Data["inputLen"] = il
 	ev.Data["digit"] = o.TypedFresh(prefix+".digit", tyByte)
+	ev.Data["origin"] = o.TypedFresh(prefix+".origin", tyInt)
 	return ev
 }
 
@@ -351,6 +352,13 @@ func (x *Exec) readPtr(st *State, p PtrVal) Val {
 			return o.SelByte(arr, o.IdxAdd(p.Slice.Off, p.Idx))
 		}
 		return o.Select(arr, o.IdxAdd(p.Slice.Off, p.Idx))
+	}
+	if len(p.Alts) > 0 {
+		v := x.readPtr(st, p.Alts[len(p.Alts)-1].P)
+		for i := len(p.Alts) - 2; i >= 0; i-- {
+			v = x.iteVal(p.Alts[i].C, x.readPtr(st, p.Alts[i].P), v)
+		}
+		return v
 	}
 	if p.Obj == nil {
 		x.fail("read through nil/unknown pointer")
@@ -436,6 +444,12 @@ func (x *Exec) writePtr(st *State, p PtrVal, nv Val) {
 		st.H = o.Store(st.H, p.Slice.Reg, o.Store(arr, o.IdxAdd(p.Slice.Off, p.Idx), nv.(*Term)))
 		if !p.LocalArr {
 			x.catDirty = true // an in-place store: concatenation descriptions of slices are no longer trusted
+		}
+		return
+	}
+	if len(p.Alts) > 0 {
+		for _, a := range p.Alts {
+			x.writePtr(st, a.P, x.iteVal(a.C, nv, x.readPtr(st, a.P)))
 		}
 		return
 	}
@@ -622,6 +636,39 @@ func (x *Exec) funcIsNil(f FuncVal) *Term {
 	return x.o.True()
 }
 
+func (x *Exec) lowerEqLit(src StrVal, lit string) *Term {
+	o := x.o
+	for i := 0; i < len(lit); i++ {
+		if lit[i] < 'a' || lit[i] > 'z' {
+			x.fail("strings.ToLower result compared with %q: only lower-case ASCII literals are modelled", lit)
+		}
+	}
+	// Exact for such literals: each letter c is produced by c, by its ASCII capital, and for i and k also by
+	// U+0130 (C4 B0) and U+212A (E2 84 AA), the only non-ASCII runes whose lower case is ASCII.
+	long := map[byte][]byte{'i': {0xC4, 0xB0}, 'k': {0xE2, 0x84, 0xAA}}
+	var shapes []*Term
+	var rec func(i int, off int64, cs []*Term)
+	rec = func(i int, off int64, cs []*Term) {
+		if i == len(lit) {
+			all := append([]*Term{o.Eq(src.Len, o.Idx(off))}, cs...)
+			shapes = append(shapes, o.And(all...))
+			return
+		}
+		c := o.SelByte(src.Arr, o.IdxAdd(src.Off, o.Idx(off)))
+		short := o.Or(o.Eq(c, o.ConstI(tyByte, int64(lit[i]))), o.Eq(c, o.ConstI(tyByte, int64(lit[i])-32)))
+		rec(i+1, off+1, append(append([]*Term{}, cs...), short))
+		if enc, ok := long[lit[i]]; ok {
+			cs2 := append([]*Term{}, cs...)
+			for k, bb := range enc {
+				cs2 = append(cs2, o.Eq(o.SelByte(src.Arr, o.IdxAdd(src.Off, o.Idx(off+int64(k)))), o.ConstI(tyByte, int64(bb))))
+			}
+			rec(i+1, off+int64(len(enc)), cs2)
+		}
+	}
+	rec(0, 0, nil)
+	return o.Or(shapes...)
+}
+
 func (x *Exec) seqEq(a, b StrVal) *Term {
 	o := x.o
 	if a.Arr == b.Arr && a.Off == b.Off && a.Len == b.Len {
@@ -630,22 +677,7 @@ func (x *Exec) seqEq(a, b StrVal) *Term {
 	// strings.ToLower(s) compared with an ASCII literal: equality ignoring ASCII case (see the ToLower schema)
 	for _, pair := range [][2]StrVal{{a, b}, {b, a}} {
 		if src, ok := x.lowerOf[pair[0].Arr]; ok && len(pair[1].Alts) == 1 {
-			lit := pair[1].Alts[0].S
-			okLit := true
-			for i := 0; i < len(lit); i++ {
-				if lit[i] < 'a' || lit[i] > 'z' || lit[i] == 'k' || lit[i] == 's' {
-					okLit = false
-				}
-			}
-			if !okLit {
-				x.fail("strings.ToLower result compared with %q: only lower-case ASCII literals without k/s are modelled", lit)
-			}
-			cs := []*Term{o.Eq(src.Len, o.Idx(int64(len(lit))))}
-			for i := 0; i < len(lit); i++ {
-				c := o.SelByte(src.Arr, o.IdxAdd(src.Off, o.Idx(int64(i))))
-				cs = append(cs, o.Or(o.Eq(c, o.ConstI(tyByte, int64(lit[i]))), o.Eq(c, o.ConstI(tyByte, int64(lit[i])-32))))
-			}
-			return o.And(cs...)
+			return x.lowerEqLit(src, pair[1].Alts[0].S)
 		}
 	}
 	n, ok := a.Len.ConstInt64()
@@ -1409,6 +1441,9 @@ func (x *Exec) errFromConcrete(st *State, v Val, from types.Type) Val {
 					}
 				}
 				ev.Data["wrapsNil"] = inner.Nil
+				if og, ok := inner.Data["origin"]; ok {
+					ev.Data["origin"] = o.Ite(inner.Nil, o.ConstI(tyInt, -1), og)
+				}
 			case f.Name() == "Input":
 				ev.Data["inputLen"] = x.lenOf(sv.F[i])
 			}
